@@ -277,11 +277,18 @@ def run_check(pid, units, tier="quick", seed=0, level="model_checking", rule=Non
           try:
             sums[i] = pc.recv()
           except Exception as ex:
-            sums[i] = _empty_summary(jobs[i][1], f"unit {jobs[i][1]}: worker died: {ex}")
+            sums[i] = _empty_summary(jobs[i][1], f"unit {jobs[i][1]}: worker died: {type(ex).__name__} {ex} (exit code {p.exitcode})")
           p.join(5)
           done.append(i)
         elif not p.is_alive():
-          sums[i] = _empty_summary(jobs[i][1], f"unit {jobs[i][1]}: worker exited with code {p.exitcode} without a result")
+          # the result may have arrived between the poll above and the liveness test
+          if pc.poll(1.0):
+            try:
+              sums[i] = pc.recv()
+            except Exception as ex:
+              sums[i] = _empty_summary(jobs[i][1], f"unit {jobs[i][1]}: worker died: {type(ex).__name__} {ex}")
+          else:
+            sums[i] = _empty_summary(jobs[i][1], f"unit {jobs[i][1]}: worker exited with code {p.exitcode} without a result")
           done.append(i)
         elif time.time() - st > unit_timeout:
           p.kill()
